@@ -429,7 +429,7 @@ Section Model.
     let us := ord 2 lvl in
     LFG {| sid := 0; skind := KFG; uuids := us; req := ord 3 (set_union (req_of_level cl lvl) pre);
            requested := existsb (isreq g) lvl |}
-        grp (cfw_now cm (hd 0 us)) (cir_of cl lvl) [] (hd 0 us).
+        grp (cfw_now cm (hd 0 us)) (cir_of cl us) [] (hd 0 us).
   Definition steps_of_group_L (cm : cfwmap) (pre : list nat) (grp : nat) (ms : list nat) : list lstep :=
     flat_map (fun lv => map (mk_step_L cm pre grp) (fst lv)) (levels_of_group_L cm ms).
   Definition pre_plan (cm : cfwmap) (d : tdata) (pq : list pitem) : list xitem :=
@@ -642,7 +642,8 @@ Section Model.
             let req2 := set_union req1 (aget0 uid jr) in
             (replace_nth i (LJOIN (set_req req2 s) uid lf rf lus rus) cur,
              if fresh then tc ++ [key] else tc, if fresh then ins ++ [(i, t)] else ins, outside)
-        | Some (LFG s grp cfw cir tfs any) => (cur, tc, ins, outside || fg_tfs_needed cm cur cfw any)
+        | Some (LFG s grp cfw cir tfs any) =>
+          (cur, tc, ins, match uuids s with [] => outside | _ :: _ => outside || fg_tfs_needed cm cur cfw any end)
         | _ => st
         end
       end) (seq 0 (List.length plan0)) (plan0, [], [], false) in
